@@ -54,9 +54,16 @@ def check_doc(col, text, ov, d):
         col.fail("C01.uncaught", case, f"{type(exc).__name__}: {str(exc)[:150]} (innermost myst frame {where})", known=in_known(text, exc, ov))
 
 
+def _transition_assertion(tb):
+    """Region of the known finding C03-hr-in-container, identified by its call site: docutils' Transitions transform failing
+    its own `assert isinstance(node.parent, (document, section))` - by that condition the document has a thematic break whose
+    parent is neither the document nor a section (in a block quote, list item, directive body ...)."""
+    return "docutils/transforms/misc.py" in tb and "in visit_transition" in tb and "assert (isinstance(node.parent, nodes.document)" in tb
+
+
 def in_known(text, exc, ov):
     tb = "".join(traceback.format_exception(type(exc), exc, exc.__traceback__))
-    if isinstance(exc, AssertionError) and "transition" in tb.lower() and "> ---" in text:
+    if isinstance(exc, AssertionError) and _transition_assertion(tb):
         return "C03-hr-in-container"
     if "<img src>" in text and "html_image" in (ov.get("myst_enable_extensions") or []):
         return "C01-img-attr-none"
